@@ -459,3 +459,26 @@ Proof.
   generalize (w_walk c G I t). rewrite Hg. destruct (wshape (fst (thr c t))) as [[[[e cur] looked] capt]|]; [|intros []].
   intros (_ & _ & _ & _ & E1 & _ & [_ E3] & _). split; assumption.
 Qed.
+
+(* list order: whenever a walk is about to call the callback of the node it stands on, every node it called earlier and
+   that is still in the list stands before that node in the list (CLSec.ordered_visit, the check the list machine makes at
+   every visit; here a consequence of CLTrav's invariant carried by the ghost) *)
+Theorem dispatcher_walk_visits_in_list_order prog sched t e n capt r w nd :
+  (forall t, Forall call_wf (prog t)) ->
+  let c := dcrun (dinit prog) sched in
+  let G := snd (grun (dinit prog) ginit sched) in
+  thr c t = (WalkAt e (Some n) capt, r) -> gw G t = Some w -> node_of c e n = Some nd ->
+  GenCL.visit_cond (ctr nd) (match capt with Some k => k | None => dcnt c e end) = true ->
+  ordered_visit (dget (dmap c) e) (tvis (wst w)) n = true /\ skipn (wbase w) (vis_by t (dvis c)) = tvis (wst w).
+Proof.
+  intros Hw c G Ht Hg Hn Hv.
+  pose proof (wi_run sched (dinit prog) ginit (init_inv prog Hw) (wi_init prog)) as I.
+  rewrite grun_machine in I. fold c in I. fold G in I.
+  generalize (w_walk c G I t). rewrite Ht, Hg. cbn [fst wshape].
+  intros (A & B & C & D & E1 & E2 & [E3a E3b] & E4). split; [|exact E3b].
+  set (k := match capt with Some k => k | None => dcnt c e end) in *.
+  assert (HT : TInv k (wids0 w) (wst w)).
+  { unfold k. rewrite D in E4. destruct capt as [k0|]; [exact E4|]. apply E4. rewrite A. lia. }
+  rewrite <- A, <- E1. apply (visit_is_ordered k (wids0 w) (wst w) n nd HT C B); [|exact Hv].
+  unfold node_of in Hn. rewrite E1, A. exact Hn.
+Qed.
